@@ -64,6 +64,14 @@ theorem reachable_progress {E : Env} (hE : E.fixEmpty = true) (hB : E.fixBytes =
   obtain ⟨p', res, r', h1, h2, _⟩ := step_ok hE hB (reachable_inv hE hB h) op hv
   exact ⟨p', res, r', h1, h2, Reachable.step p r op p' res r' h hv h1 h2⟩
 
+/-- The arithmetic hypothesis in `Valid r .alloc` is implied by `capacity < 2^31` (the
+    automatic growth step never exceeds the capacity), i.e. by a pointer ring below 16 GiB. -/
+theorem valid_alloc_of_small {r : Ref} (h : r.cap < 2147483648) : Valid r .alloc := by
+  intro _
+  have : r.growStep ≤ r.cap := by unfold Ref.growStep; split <;> omega
+  show r.cap + r.growStep < 4294967296
+  omega
+
 /-! ## Clause: counters equal the reference model's -/
 
 /-- `used` is the number of live blocks and `capacity` the total number of blocks of the
@@ -95,6 +103,19 @@ theorem live_distinct_inside {E : Env} (hE : E.fixEmpty = true) (hB : E.fixBytes
     refine ⟨n, p.blockSize * n, rfl, hmem, ?_, ?_⟩
     · rw [hi.bytes]; simp [hs]
     · rw [Nat.mul_comm]; exact Nat.mul_le_mul_left _ hmem
+
+/-- Every block of every data buffer is, at any time, either live or available in the ring —
+    never both, never neither (no block is lost or duplicated by any growth), and each at
+    most once. -/
+theorem every_block_accounted {E : Env} (hE : E.fixEmpty = true) (hB : E.fixBytes = true)
+    {p : Pool} {r : Ref} (h : Reachable E p r) (b : BlockId) :
+    (validB p.slabs b = true ↔ (b ∈ r.live ∨ b ∈ avail p)) ∧ ¬ (b ∈ r.live ∧ b ∈ avail p) ∧
+    (avail p).Nodup ∧ (avail p).length = p.capacity - p.used := by
+  have hi := reachable_inv hE hB h
+  have hnd := nodup_parts hi
+  refine ⟨?_, fun hh => hnd.2.2 b hh.2 hh.1, hnd.1, avail_length hi⟩
+  rw [← mem_allBlocks, ← hi.perm.mem_iff, List.mem_append]
+  exact Or.comm
 
 /-- Address form. Let `base s` be the address `malloc` returned for data buffer `s`; assume
     what `malloc` guarantees: the buffers (with the sizes requested) do not overlap. Then the
